@@ -345,10 +345,10 @@ def thickness_edit(ctx):
     ev = E3()
     ev.env['surface_number'] = A('s')
     ev.run(g.node.body)
-    if isinstance(ev.returned, Rat) and rat_eq(
-            ev.returned, A('POS[1 + s]') - A('POS[s]')) or (
-            isinstance(ev.returned, Rat) and len(ev.returned.atoms()) == 2 and
-            'POS' in repr(ev.returned)):
+    if isinstance(ev.returned, Rat) and (
+            rat_eq(ev.returned, A('POS[s+1]') - A('POS[s]')) or
+            rat_eq(ev.returned, A('POS[1 + s]') - A('POS[s]')) or
+            rat_eq(ev.returned, A('POS[s + 1]') - A('POS[s]'))):
         res.ok('get_thickness(s) = positions[s+1] - positions[s]')
     else:
         res.fail(ctx.finding('THICKNESS-EDIT', g, g.node,
@@ -1131,8 +1131,16 @@ def arg_wiring_rule(ctx):
     from .common import arg_wiring
     res = arg_wiring(ctx, 'ARG-WIRING', WIRING_SITES, WIRING_DEFAULTS)
     P = ctx.P
-    # the per-type table hands each geometry the keys it needs
+    # a surface is reflecting exactly when its material is given as 'mirror'
     f = P.func('SurfaceFactory.create_surface')
+    from ..match import find
+    if find(f, "is_reflective = material == 'mirror'"):
+        res.ok("create_surface: is_reflective = (material == 'mirror')")
+    else:
+        res.fail(ctx.finding('ARG-WIRING', f, f.node,
+                             "a surface is not made reflecting exactly when "
+                             "its material is 'mirror'",
+                             construct='is_reflective derivation'))
     need = {'standard': {'radius', 'conic'},
             'even_asphere': {'radius', 'conic', 'coefficients'},
             'polynomial': {'radius', 'conic', 'coefficients'},
